@@ -634,8 +634,11 @@ declaratortypes(struct scope *s, struct list *result, char **name, struct scope 
 				if (tok.kind == TRPAREN)
 					break;
 				d = parameter(s);
-				if (d->name)
+				if (d->name) {
+					if (scopegetdecl(s, d->name, false))
+						error(&tok.loc, "parameter '%s' redeclared", d->name);
 					scopeputdecl(s, d);
+				}
 				*paramend = d;
 				paramend = &d->next;
 				++t->u.func.nparam;
